@@ -196,6 +196,8 @@ class EdgeLib(LibBase):
         return args
 
     def frame(self, cls, con, old, new):
+        if getattr(con, "no_frame", False):
+            return []
         from pyvc.contract import unchanged_clauses
         fields = [f for f in old.f if f not in con.modifies]
         heaps = [h for h in old.h if h.split("?")[0].split("#")[0] not in con.heap_modifies]
@@ -209,6 +211,27 @@ class EdgeLib(LibBase):
     def self_attr(self, ctx, attr, st):
         if attr == "inbuiltstore" and any(k.startswith(PFX) for k in st.f):
             return SubRef(PFX)
+        return None
+
+    def set_self_attr(self, ex, attr, v, st, lineno):
+        if attr == "inbuiltstore" and isinstance(v, SubRef):
+            return [Outcome("next", st)]
+        if attr == "env" and isinstance(v, EnvRef):
+            return [Outcome("next", st)]
+        sch = self.schema(ex.ctx.cls)
+        if attr in sch and sch[attr][0] == "dyn" and not isinstance(v, VDyn):
+            st.f[attr] = V.dyn_of(v)
+            return [Outcome("next", st)]
+        if attr in sch and sch[attr][0] == "num" and isinstance(v, VDyn):
+            st.f[attr] = Num(z3.ToInt(v.num)) if sch[attr][1] == "int" else Num(v.num)
+            return [Outcome("next", st)]
+        if attr in sch and sch[attr][0] == "str" and isinstance(v, VDyn):
+            # a non-string value is different from every string
+            st.f[attr] = VStr(z3.If(v.tag == V.T_STR, v.s, -1000 - v.tag))
+            return [Outcome("next", st)]
+        if attr in sch and sch[attr][0] == "opt" and isinstance(v, VNone):
+            st.f[attr] = VOpt(z3.BoolVal(True), V.mk_value("none." + attr, sch[attr][1]))
+            return [Outcome("next", st)]
         return None
 
     def is_method(self, cls, attr):
@@ -261,6 +284,42 @@ class EdgeLib(LibBase):
         for v, s2 in self.storelib.call_self(ex2, name, args, kw, ss, lineno):
             outs.append((v, merge_back(st, s2)))
         return outs
+
+    def builtin(self, ex, name, args, kw, st, node):
+        """BufferStore(env, capacity=..., mode=...) / FleetStore(env, capacity=..., delay=..., transit_delay=...):
+        the store's __init__ contract applied to a fresh sub-state"""
+        if name not in ("BufferStore", "FleetStore"):
+            return None
+        cls = ex.ctx.cls
+        scls = PROFILES[cls]["store"]
+        con = self.storelib.contracts[scls]["__init__"]
+        s = st.fork()
+        tag = "new%s" % logic.fresh("n").decl().name().split("!")[1]
+        for k, kind in self.storelib.schema(scls).items():
+            s.f[PFX + k] = V.mk_value("%s.%s" % (tag, k), kind)
+        ss = project(s)
+
+        def num(v):
+            return Num(v.num) if isinstance(v, VDyn) else v
+        cap = kw.get("capacity")
+        capn = V.as_num(num(cap))
+        amap = {"capacity": Num(z3.ToInt(capn.t) if not capn.is_int else capn.t, inf=z3.BoolVal(False))}
+        if scls == "B":
+            amap["mode"] = kw.get("mode")
+        outs = []
+        # exceptional case of the store constructor (capacity <= 0) cannot happen after Edge.__init__ accepted it
+        ex.ctx.oblige("store-constructor.capacity-positive@L%d" % node.lineno, st, [capn.t >= 1], "call-pre", node.lineno, ("C20",))
+        pc = PostCtx("caller", ss, ss, amap, None, self.storelib, scls)
+        for it in con.post(pc):
+            if isinstance(it, Clause):
+                ss.assume(it.clause(pc) if callable(it.clause) else it.clause)
+        for nm, cl in self.storelib.validity(scls, ss, con) if False else []:
+            ss.assume(cl)
+        ss.assume(capn.t >= 1)
+        for nm, cl, props in self.storelib.invariant(scls, ss, side="assume"):
+            ss.assume(cl)
+        s2 = merge_back(s, ss)
+        return [(SubRef(PFX), s2)]
 
     def consult(self, ex, dyn, how, st, node):
         """one draw from a user supplied generator (next) or callable (call): a fresh value (assumption A-user:
@@ -514,6 +573,68 @@ class EdgeLib(LibBase):
                         props=("C20",))]
             nr0 = C["put"].normal_requires
             C["put"].normal_requires = lambda c: z3.And(nr0(c), _drawn_delay(c).is_num(), _drawn_delay(c).num >= 0)
+        if cls == "Fleet":
+            def fput_pre(st, args):
+                x = args["item"].t
+                ss = store_state(st)
+                return connected(st, args) + [
+                    ("A-distinct.not-in-transit", V.forall_idx(ss.f[S.ITEMS], lambda i, y: y.t != x, "A-distinct.It")),
+                    ("A-distinct.not-ready", V.forall_idx(ss.f[S.RD], lambda i, y: y.t != x, "A-distinct.Rd")),
+                    ("A-user-delay: a constant delay is a non-negative number",
+                     z3.Implies(z3.Not(z3.Or(st.f["delay"].tag == V.T_GEN, st.f["delay"].tag == V.T_FUNC)),
+                                z3.And(st.f["delay"].is_num(), st.f["delay"].num >= 0)))]
+            C["put"] = passthrough("put", [("event", S.EV, None), ("item", S.IT, None)], ("C01", "C02", "C07", "C14", "C18"),
+                                   ("bool",), extra_pre=fput_pre, extra_post=lambda c: stats_post(c))
+            C["put"].modifies = C["put"].modifies + (avgfield,)
+            C["put"].heap_modifies = tuple(C["put"].heap_modifies) + ("fleet_entry_time",)
+            C["put"].excs = C["put"].excs + [
+                ExcCase("AssertionError", lambda c: z3.And(_drawn_delay(c).is_num(), _drawn_delay(c).num < 0),
+                        "negative-delay-drawn", unchanged=True, props=("C20",)),
+                ExcCase("TypeError", lambda c: z3.Not(_drawn_delay(c).is_num()), "delay-not-a-number", unchanged=True,
+                        props=("C20",))]
+            nrf = C["put"].normal_requires
+            C["put"].normal_requires = lambda c: z3.And(nrf(c), _drawn_delay(c).is_num(), _drawn_delay(c).num >= 0)
+
+        # ---- __init__: invalid configurations are rejected, a valid one yields an empty, consistent edge (C20)
+        def delay_kind_ok(d):
+            return z3.Or(d.tag == V.T_FUNC, d.tag == V.T_GEN, d.tag == V.T_INT, d.tag == V.T_FLOAT, d.tag == V.T_BOOL,
+                         d.tag == V.T_NONE)
+
+        def cap_ok(c_):
+            return z3.And(z3.Or(c_.tag == V.T_INT, c_.tag == V.T_BOOL), c_.num > 0)
+
+        def mode_ok(m):
+            return z3.And(m.tag == V.T_STR, z3.Or(m.s == V.str_const("FIFO"), m.s == V.str_const("LIFO")))
+        iparams = [("env", ("env",), None), ("id", ("dyn",), None), ("capacity", ("dyn",), V.dyn_of(Num(1))),
+                   ("delay", ("dyn",), V.dyn_of(Num(0 if cls == "Buffer" else 1)))]
+        if cls == "Buffer":
+            iparams.append(("mode", ("dyn",), V.dyn_of(VStr("FIFO"))))
+        else:
+            iparams.append(("transit_delay", ("dyn",), V.dyn_of(Num(0))))
+
+        def init_ok(c):
+            conds = [c.args["id"].tag == V.T_STR, cap_ok(c.args["capacity"]), delay_kind_ok(c.args["delay"])]
+            if cls == "Buffer":
+                conds.append(mode_ok(c.args["mode"]))
+            return z3.And(*conds)
+
+        def init_post(c):
+            n = c.new
+            items = [Clause("capacity-recorded", lambda c: z3.ToReal(n.f["capacity"].t) == c.args["capacity"].num, ("C20", "C01")),
+                     Clause("starts-empty", lambda c: z3.And(project(n).f[S.ITEMS].len == 0, project(n).f[S.RD].len == 0),
+                            ("C20",)),
+                     Clause("unconnected", lambda c: z3.And(n.f["src_node"].isnone, n.f["dest_node"].isnone), ("C20",))]
+            if cls == "Buffer":
+                items.append(Clause("mode-recorded", lambda c: n.f["mode"].t == c.args["mode"].s, ("C20", "C06")))
+            return items
+        C["__init__"] = FnContract(
+            "__init__", iparams, post=init_post,
+            excs=[ExcCase("TypeError", lambda c: c.args["id"].tag != V.T_STR, "id-not-a-string", unchanged=False, props=("C20",)),
+                  ExcCase("ValueError", lambda c: z3.And(c.args["id"].tag == V.T_STR, z3.Not(init_ok(c))),
+                          "invalid-capacity-mode-or-delay", unchanged=False, props=("C20",))],
+            normal_requires=init_ok, uses_inv=False, keeps_inv=True, is_init=True, props=("C20", "C01", "C06"))
+        C["__init__"].no_frame = True
+
         # ---- initial_test / stats collector / final average
         C["initial_test"] = FnContract(
             "initial_test", [], excs=[ExcCase("AssertionError", lambda c: z3.Or(c.old.f["src_node"].isnone,
